@@ -71,3 +71,11 @@ Theorem C05_crash_anywhere_keeps_lifecycle : forall ops r po m, let s := run_all
   frame s (run_upto m (handler r) s po) /\ WedgeP.wf (run_upto m (handler r) s po) /\ wf_t (run_upto m (handler r) s po).
 Proof. exact crash_frame_history. Qed.
 Print Assumptions C05_crash_anywhere_keeps_lifecycle.
+
+(* THE PROGRAMS ABOVE ARE THE SOURCE.  The handler programs `handler r` that the theorems of this file run (under the interleaving /
+   crash semantics) are the programs regenerated from vizier_service.py at every run (see C01_source_handlers_are_the_model;
+   equality through the standard library's functional extensionality). *)
+From VZ Require Proofs.AllHandlersP.
+Theorem C05_source_handlers_equal_the_model : forall r, AllHandlersP.handler_from_source_all r = Service.handler r.
+Proof. exact AllHandlersP.all_source_handlers_equal_the_model. Qed.
+Print Assumptions C05_source_handlers_equal_the_model.
